@@ -955,6 +955,12 @@ func helperResultFact(f fact) (*ssa.Call, []ssa.Instruction) {
 	}
 	var call *ssa.Call
 	idx := 0
+	nilCmp, wantNil := false, false
+	if cv, eq, isCmp := nilCmpOf(c); isCmp {
+		// err == nil / err != nil on an error (or pointer) result of a helper
+		nilCmp, wantNil = true, eq == v
+		c = cv
+	}
 	switch x := c.(type) {
 	case *ssa.Call:
 		call = x
@@ -970,6 +976,47 @@ func helperResultFact(f fact) (*ssa.Call, []ssa.Instruction) {
 		return nil, nil
 	}
 	var rets []ssa.Instruction
+	if nilCmp {
+		for _, ret := range findInstrs(h, isReturn) {
+			if h.Recover != nil && ret.Block() == h.Recover {
+				continue
+			}
+			compatible := false
+			for _, rv := range retValAt(ret.(*ssa.Return), idx) {
+				for _, leaf := range phiLeaves(rv) {
+					cls := classifyResult(leaf)
+					if cls == 0 {
+						// "if err != nil { return err }"
+						for _, g := range guardsOfBlockNoExpand(ret.Block()) {
+							if gv, eq, isC := nilCmpOf(g.Cond); isC && gv == leaf {
+								if eq == g.Val {
+									cls = 1
+								} else {
+									cls = 2
+								}
+							}
+						}
+					}
+					switch cls {
+					case 1:
+						if wantNil {
+							compatible = true
+						}
+					case 2:
+						if !wantNil {
+							compatible = true
+						}
+					default:
+						compatible = true
+					}
+				}
+			}
+			if compatible {
+				rets = append(rets, ret)
+			}
+		}
+		return call, rets
+	}
 	for _, ret := range findInstrs(h, isReturn) {
 		if h.Recover != nil && ret.Block() == h.Recover {
 			continue
@@ -1036,4 +1083,7 @@ func originAt(v ssa.Value, at ssa.Instruction) ssa.Value {
 	return origin(rv[0])
 }
 
-func resetFlatPaths() { flatPathCache = map[*ssa.Function]*flatPaths{} }
+func resetFlatPaths() {
+	flatPathCache = map[*ssa.Function]*flatPaths{}
+	funcVarCache = map[*ssa.Global]*ssa.Function{}
+}
